@@ -16,6 +16,13 @@
 (* http (such a redirect is refused: no request is sent).  The final response is delivered     *)
 (* once and carries the redirect responses in the order received.                              *)
 (*                                                                                             *)
+(* The query of a Location is opaque text for the client: the reissued request must carry a   *)
+(* query that means the same, i.e. decodes (application/x-www-form-urlencoded) to the same     *)
+(* name/value pairs.  Queries are abstract values [kind, hop]; the kind says what the values    *)
+(* contain: "plain" unreserved characters only, "amp" / "plus" / "hash" / "pct" a percent-      *)
+(* encoded "&" / "+" / "#" / "%" (e.g. q=rock%26roll): decoding such a query once more, or not *)
+(* at all, names other pairs.  The hop number tells the queries of different hops apart.       *)
+(*                                                                                             *)
 (* A port class is "std" (the scheme's default port, not written in a Location) or "alt" (an   *)
 (* explicit other port).  Hosts are distinct names with distinct addresses.                    *)
 EXTENDS Integers, Sequences, FiniteSets, TLC
@@ -24,6 +31,8 @@ CONSTANTS Schemes,     \* subset of {"http", "https"}
           Hosts,
           PortClasses, \* subset of {"std", "alt"}
           Statuses,    \* redirect status codes offered by servers
+          QKinds,      \* kinds of query a Location may carry: subset of {"plain", "amp", "plus", "hash", "pct"}
+          StartKinds,  \* the start URL's query: subset of {"none", "start"}
           MaxHops      \* longest chain of redirects
 
 VARIABLES phase,      \* "idle" | "sent" (a request is outstanding) | "final" | "refused"
@@ -45,8 +54,8 @@ NoRes == [status |-> 0, redirects |-> <<>>]
 StartPaths == {<<"a">>, <<"d", "b">>, <<"d", "">>}
 AbsPaths == {<<"t">>, <<"d", "u">>}
 RelPaths == {<<"c">>, <<"..", "c">>}
-StartQueries == {"", "s=0"}
-HopQuery == <<"n=1", "n=2", "n=3", "n=4">>
+NoQ == [kind |-> "none", hop |-> 0]
+StartQueries == {[kind |-> k, hop |-> 0] : k \in StartKinds}
 
 Front(s) == SubSeq(s, 1, Len(s) - 1)
 RECURSIVE Dots(_, _)
@@ -60,7 +69,7 @@ Merge(base, ref) == Dots(Front(base) \o ref, <<>>)
 
 (* ---- Location values: fields that a shape does not write are fixed to a dummy *)
 Loc(shape, s, h, p, path, q) == [shape |-> shape, s |-> s, h |-> h, p |-> p, path |-> path, q |-> q]
-Queries == {""} \cup {HopQuery[i] : i \in 1..MaxHops}
+Queries == {NoQ} \cup {[kind |-> k, hop |-> i] : k \in QKinds, i \in 1..MaxHops}
 Locs == LET Q == Queries IN
     {Loc("abs", s, h, p, path, q) : s \in Schemes, h \in Hosts, p \in PortClasses, path \in AbsPaths, q \in Q}
     \cup {Loc("schemerel", "", h, p, path, q) : h \in Hosts, p \in PortClasses, path \in AbsPaths, q \in Q}
@@ -89,7 +98,7 @@ Issue == /\ phase = "idle"
 \* the server answers 3xx + Location; the client follows (or refuses a downgrade)
 Redirect(st, loc) ==
     /\ phase = "sent" /\ Len(chain) < MaxHops
-    /\ loc.q \in {"", HopQuery[Len(chain) + 1]}      \* a query that tells the hops apart
+    /\ loc.q = NoQ \/ loc.q.hop = Len(chain) + 1      \* a query that tells the hops apart
     /\ LET t == Resolve(url, loc) IN
        /\ t.o \in Origins
        /\ chain' = Append(chain, st)
